@@ -3,7 +3,7 @@
    tables goextract read from apkindex.go / package.go / installed.go /
    passwd.go / group.go on this run (Generated/FieldLetters.v). *)
 From Apko Require Import Base.Prelude Base.C16Lib Model.Formats Spec.FormatsSpec
-  Proofs.FormatsProofs Proofs.FormatsPasswd Proofs.FormatsPath Proofs.FormatsSort Generated.FieldLetters.
+  Proofs.FormatsProofs Proofs.FormatsPasswd Proofs.FormatsPath Proofs.FormatsSort Proofs.FormatsInstalled Generated.FieldLetters.
 
 (* the APKINDEX template in the source is the one the theorems are about *)
 Theorem c16_index_template_pinned :
@@ -225,3 +225,89 @@ Qed.
 Theorem c16_sort_validator_decides : forall input output, sort_tags input output = [] <-> SortedWell input output.
 Proof. exact sort_validator_decides. Qed.
 Print Assumptions c16_sort_validator_decides.
+
+(* ---- installed database: write then read ---------------------------------------
+   The rows of PackageToInstalled, the fmt formats of AddInstalledPackage, the
+   mode mask and the two default modes read from the source on this run are the
+   ones the theorems below are about. *)
+Theorem c16_installed_tables_pinned :
+  installed_pkg_rows = expected_installed_rows /\
+  installed_file_formats = ["%c"; "F:%s"; "M:%d:%d:%04o"; "R:%s"; "a:%d:%d:%04o"; "Z:%s"] /\
+  installed_mode_mask = 511%Z /\ installed_dir_default_mode = 493%Z /\ installed_file_default_mode = 420%Z /\
+  installed_join_and_trailer = [s_nl +++ s_nl; s_nl] /\ installed_sets_scanner_buffer = false.
+Proof. exact installed_tables_pinned. Qed.
+Print Assumptions c16_installed_tables_pinned.
+
+(* The full statement (InstalledRoundTrip: every package field and every file
+   record incl. its checksum) is false for two recorded reasons; witnesses: *)
+(* C16-F1: the i: line is written in Go's slice syntax — even the EMPTY list comes back as ["[]"] *)
+Theorem c16_installed_installif_refuted :
+  exists t, write_installed wenc whex witness_inst_pkg [] = Ok t /\
+    ~ InstalledRoundTrip witness_inst_pkg [] (parse_installed wdec t) /\
+    installed_rt_tags witness_inst_pkg [] (parse_installed wdec t) = ["viol:installed-installif-go-slice-format"].
+Proof. exact installed_installif_refuted. Qed.
+Print Assumptions c16_installed_installif_refuted.
+(* C16-F2: the Z: line is written and never read *)
+Theorem c16_installed_Z_refuted :
+  exists t, write_installed wenc whex witness_inst_pkg witness_z_files = Ok t /\
+    ~ InstalledRoundTrip witness_inst_pkg witness_z_files (parse_installed wdec t) /\
+    In "viol:installed-Z-not-read" (installed_rt_tags witness_inst_pkg witness_z_files (parse_installed wdec t)).
+Proof. exact installed_Z_refuted. Qed.
+Print Assumptions c16_installed_Z_refuted.
+
+(* PARTIAL (missing: install_if, C16-F1; per-file checksum, C16-F2).
+   [enc]/[dec]: any base64 pair with dec (enc b) = Some b; [hexdec]: any hex
+   decoder (the writer fails, writing nothing, when it rejects a checksum).
+   [inst_pkg_ok]: sizes/priority fit uint64, build time fits int64, items of the
+   space-joined lists are non-empty and space-free.  [sort_envelope]: as for
+   c16_sort_headers.  [id_ok]: uid, gid fit int64 (Go int).  The last hypothesis:
+   no written line contains LF, ends in CR or exceeds bufio's default token
+   (beyond it: finding C16-F4).  For EVERY named package and EVERY file list of
+   that kind, ParseInstalled returns exactly one record; every package field
+   except install_if survives (install_if comes back as the space-split of Go's
+   "[a b]"); and the file list comes back in sortTarHeaders order, each entry
+   with its path (the F: spelling for directories, the cleaned path for files:
+   both Clean to the original's cleaned path), kind, mode & 0777, uid and gid,
+   nothing lost and nothing invented. *)
+Theorem c16_installed_roundtrip_partial :
+  forall (enc : list N -> string) (dec hexdec : string -> option (list N)),
+  (forall b, dec (enc b) = Some b) ->
+  forall p files t,
+  inst_pkg_ok p -> p_name p <> "" -> sort_envelope files -> Forall id_ok files ->
+  write_installed enc hexdec p files = Ok t ->
+  (forall sorted ls, sort_headers files = Ok sorted -> installed_record_lines enc hexdec p sorted = Ok ls ->
+     lines_fit installed_max_token ls) ->
+  exists sorted, sort_headers files = Ok sorted /\
+    parse_installed dec t = Ok [(norm_inst p, map rec_clean sorted)] /\
+    InstalledRoundTripPartial p files (parse_installed dec t).
+Proof. exact installed_roundtrip_partial. Qed.
+Print Assumptions c16_installed_roundtrip_partial.
+
+Example c16_installed_roundtrip_partial_ex :
+  let p := set_checksum [1%N; 2%N] (set_prio 7%N (set_isize 4096%N (set_size 18446744073709551615%N
+            (set_replaces ["r"] (set_installif ["x"; "y=1"] (set_provides ["so:libc.so.6=1"; "cmd:a"] (set_deps ["b>1"; "!c"]
+            (set_commit "abc" (set_url "https://e" (set_maint "m <m@e>" (set_origin "o" (set_license "MIT"
+            (set_desc "a b c" (set_arch "x86_64" (set_version "1.2.3-r4" (set_name "a" empty_pkg)))))))))))))))) in
+  let files := [mkHdr "usr/bin/ls" false 2505 5 6 "Q1abc"; mkHdr "./usr/" true 493 0 0 ""; mkHdr "usr/bin" true 488 3 4 ""] in
+  inst_pkg_ok p /\ p_name p <> "" /\ sort_envelope files /\ Forall id_ok files /\
+  exists t sorted ls, write_installed wenc whex p files = Ok t /\ sort_headers files = Ok sorted /\
+    installed_record_lines wenc whex p sorted = Ok ls /\ lines_fit installed_max_token ls.
+Proof.
+  cbn zeta. split; [|split; [discriminate|split; [|split]]].
+  - constructor; try (vm_compute; (reflexivity || lia)); try (split; vm_compute; congruence);
+      repeat constructor; try discriminate.
+  - constructor.
+    + vm_compute. repeat constructor; cbn; intuition discriminate.
+    + intros h I. cbn in I. repeat destruct I as [<-|I]; try (vm_compute; discriminate). destruct I.
+    + intros h I. cbn in I. repeat destruct I as [<-|I]; try (vm_compute; reflexivity). destruct I.
+    + intros h I D. cbn in I. repeat destruct I as [<-|I]; try discriminate D; try (vm_compute; repeat split; discriminate). destruct I.
+  - repeat constructor; vm_compute; congruence.
+  - eexists _, _, _. split; [vm_compute; reflexivity|]. split; [vm_compute; reflexivity|]. split; [vm_compute; reflexivity|].
+    unfold lines_fit. repeat constructor; try (vm_compute; (reflexivity || discriminate || lia)).
+Qed.
+
+(* the validator run on the IMPLEMENTATION's read-back decides the full statement *)
+Theorem c16_installed_validator_decides : forall p files rb,
+  installed_rt_tags p files rb = [] <-> InstalledRoundTrip p files rb.
+Proof. exact installed_validator_decides. Qed.
+Print Assumptions c16_installed_validator_decides.
